@@ -60,10 +60,11 @@ static inline QString fs_literal(int id, int len) { QString s = fs_str(T_LIT); s
 
 /* ------------------------------------------------------------------ wall clock (A-clock) */
 long long g_today;                         /* wall-clock day; may advance between two readings */
+int g_clock_frozen;                        /* 1: midnight does not pass during the call (only to delimit a recorded finding) */
 static inline QDate QDate_ctor(void) { QDate d; d.jd = JD_NULL; return d; }
 static inline BOOL QDate_isValid(QDate d) { return d.jd != JD_NULL; }
 static inline QDate QDate_currentDate(void)
-{ long long t = nondet_ll(); __CPROVER_assume(t >= g_today && t < 4000000000LL); g_today = t; QDate d; d.jd = t; return d; }
+{ long long t = nondet_ll(); __CPROVER_assume(t >= g_today && t < 4000000000LL && (!g_clock_frozen || t == g_today)); g_today = t; QDate d; d.jd = t; return d; }
 static inline BOOL QDate_op_ne__QDate(QDate a, QDate b) { return a.jd != b.jd; }
 static inline BOOL QDate_op_eq__QDate(QDate a, QDate b) { return a.jd == b.jd; }
 static inline BOOL QDate_op_lt__QDate(QDate a, QDate b) { return a.jd < b.jd; }
@@ -95,6 +96,7 @@ int g_open;                     /* the sink's QFile handle is open (append mode)
 long long g_W;                  /* records written (history)                                                     */
 unsigned long long g_lost;      /* loss events: records destroyed other than by retention of whole oldest files  */
 unsigned long long g_foreign_touched; /* a file that is not the active file nor an own rotated file was renamed/removed/written */
+unsigned long long g_comp_removes; /* removals of an uncompressed original by compressFile */
 unsigned long long g_removes;   /* QFile::remove calls                                                           */
 unsigned long long g_renames_ok; /* successful rotations                                                          */
 /* the message being sent (ghost copy, tied to lmsg by the contract of send) */
@@ -516,12 +518,12 @@ static inline BOOL QFile_rename__QString_QString(QString from, QString to)
 static inline BOOL QFile_remove__QString(QString path)
 {
     SAFE_POINT("remove");
-    g_removes++;
     OBL_C06(path.tag == T_ROTPATH, "only files of this sink's rotated-name scheme are ever removed (never the active file, never a foreign file)");
-    if (path.tag == T_ACTIVE) { if (MAY_FAIL()) return 0; g_lost += g_A_recs; g_A_exists = 0; g_A_size = 0; g_A_recs = 0; return 1; }
-    if (path.tag != T_ROTPATH) { g_foreign_touched++; return NONDET_BOOL(); }
+    if (path.tag == T_ACTIVE) { g_removes++; if (MAY_FAIL()) return 0; g_lost += g_A_recs; g_A_exists = 0; g_A_size = 0; g_A_recs = 0; return 1; }
+    if (path.tag != T_ROTPATH) { g_removes++; g_foreign_touched++; return NONDET_BOOL(); }
     /* compressFile removing the uncompressed original: only once the compressed copy is complete */
     if (g_new.exists && !path.gz && path.jd == g_new.jd && path.idx == g_new.idx && g_gz_exists) {
+        g_comp_removes++;
         if (MAY_FAIL()) return 0;
         if (!(g_gz_complete)) g_lost += g_new.recs;
         g_new.gz = 1; if (g_new_is_w == 0) g_w[0].gz = 1; if (g_new_is_w == 1) g_w[1].gz = 1;
@@ -530,10 +532,8 @@ static inline BOOL QFile_remove__QString(QString path)
         return 1;
     }
     /* retention: the removed file must be the OLDEST existing rotated file */
+    g_removes++;
     EACH_W(OBL_C06(!(g_w[k].exists && path.isw != k) || g_w[k].seq > path.seq, "retention removes only the oldest rotated file (an older or equal-age file still exists)");)
-#ifndef PROP_C06
-    EACH_W(if (g_w[k].exists && path.isw != k && g_w[k].seq < path.seq) g_lost++;)     /* a gap in the surviving history */
-#endif
     if (MAY_FAIL()) return 0;
     if (path.isw == 0) g_w[0].exists = 0; if (path.isw == 1) g_w[1].exists = 0;
     if (g_new.exists && path.jd == g_new.jd && path.idx == g_new.idx) g_new.exists = 0;
